@@ -293,6 +293,17 @@ fn c17_coll(v: &[Val]) -> Result<bool, String> {
         }
     }
     if cur.is_some() { return Err("select_cone returned members not in order / not in the collection".into()); }
+    // the verdict on a member does not depend on its neighbours: the selection is the filter by the verdict each member gets alone
+    // (exact, no tolerance: "keeps exactly the members whose angle to the axis is at most the half-angle" is a per-member predicate)
+    let alone: Vec<Geonum> = l.iter().filter(|g| GeoCollection::from(vec![(*g).clone()]).select_cone(&dir, half).len() == 1).cloned().collect();
+    if !eq_list(&sel, &alone) {
+        let k = sel.iter().zip(alone.iter()).position(|(p, q)| !same_geonum(p, q)).unwrap_or(sel.len().min(alone.len()));
+        let who = if k < alone.len() { show_g(&alone[k]) } else if k < sel.len() { show_g(&sel[k]) } else { String::from("?") };
+        return Err(format!("select_cone judges member {} differently inside the collection ({} kept) than alone ({} kept) (axis {}, half-angle {:e})",
+                           who, sel.len(), alone.len(), show_g(&dir), half));
+    }
+    let alone_t: Vec<Geonum> = l.iter().filter(|g| GeoCollection::from(vec![(*g).clone()]).truncate(t).len() == 1).cloned().collect();
+    if !eq_list(&c.truncate(t).objects, &alone_t) { return Err(format!("truncate({:e}) judges a member differently inside the collection than alone", t)); }
     // maps
     let sc = c.scale_all(f).objects; let ro = c.rotate_all(x).objects;
     if sc.len() != l.len() || ro.len() != l.len() { return Err("scale_all/rotate_all changed the length".into()); }
